@@ -6,7 +6,6 @@ import (
 	"go/token"
 	"go/types"
 	"math/big"
-	"os"
 	"sort"
 	"strings"
 
@@ -574,9 +573,6 @@ func (e *c02eval) dropNaN(x ssa.Value) {
 }
 
 func (e *c02eval) take(cond ssa.Value, taken bool) {
-	if os.Getenv("FPDEBUG") != "" {
-		fmt.Fprintf(os.Stderr, "take %s (%T) -> %s (%T) taken=%v frames=%d\n", cond, cond, e.deref(cond), e.deref(cond), taken, len(e.frames))
-	}
 	cond = e.deref(cond)
 	switch c := cond.(type) {
 	case *ssa.Const:
